@@ -9,7 +9,7 @@ from props.c19 import _norm
 ID = "C16"
 HEAP_SUMMARY = True      # end every program with the reference-level observation (BB.Model.Heap vs id() walk)
 LEAN_MODULE = "BB.Properties.C16"
-QUICK_N = 120
+QUICK_N = 200
 THOROUGH_N = 2500
 RULE = ("triples a, b, c of consistent sequences over the same channels (0-3 positions each, the empty one carrying the "
         "settings; blueprint and raw-array channels, 15% subsequences, flags) with identical AWG settings (amplitude, offset, "
